@@ -19,6 +19,7 @@ Trace validity, identity/score helpers and MSA content are NOT decided.
 import ast
 
 from ..astutil import call_name, calls, const_eval, dotted, names_in, param_names, stmts, walk_local
+from ..exprnorm import contains_expr, same_expr
 from ..core import AnalysisError, Mutant
 
 EXPLANATION = (
@@ -84,8 +85,18 @@ def run(ctx):
         for b in node.body:
             if isinstance(b, ast.Assign) and isinstance(b.targets[0], ast.Subscript) and dotted(b.targets[0].value) == "trace":
                 col = b.targets[0].slice.elts[1].value
-                v = ast.unparse(b.value)
-                cols[col] = "gap" if v == "-1" else ("ref" if "ref_pos" in v else "seg" if "seg_pos" in v else "?")
+                # exact forms only: -1 for a gap, np.arange(p, p + length) for the running pointer p, written to rows i..i+length
+                row = b.targets[0].slice.elts[0]
+                rows_ok = isinstance(row, ast.Slice) and same_expr(row.lower, "i") and same_expr(row.upper, "i + length")
+                if same_expr(b.value, "-1"):
+                    kind = "gap"
+                elif same_expr(b.value, "np.arange(ref_pos, ref_pos + length)"):
+                    kind = "ref"
+                elif same_expr(b.value, "np.arange(seg_pos, seg_pos + length)"):
+                    kind = "seg"
+                else:
+                    kind = "?" + ast.unparse(b.value)
+                cols[col] = kind if rows_ok else "?rows " + ast.unparse(b.targets[0].slice.elts[0])
         clip = any("clip_mask" in ast.unparse(b) and "False" in ast.unparse(b) for b in node.body)
         for o in ops:
             handled[o] = (adv_ref, adv_seg, cols, clip)
@@ -115,13 +126,17 @@ def run(ctx):
     for op in sorted(set(members) - WRITER_EMITS):
         ctx.ob("R2.unsupported-rejected", CIG, "read_alignment_from_cigar", f"{op} -> ValueError", op not in handled and has_else_raise,
                f"{op} is not supported and must be rejected, not silently skipped", rd.lineno, nontrivial=False)
+    i_writes = [b for b in ast.walk(loop[0]) if isinstance(b, (ast.AugAssign, ast.Assign)) and any(
+        isinstance(t, ast.Name) and t.id == "i" for t in ([b.target] if isinstance(b, ast.AugAssign) else b.targets))]
     ctx.ob("R2.output-index-advances", CIG, "read_alignment_from_cigar", "i += length after every operation",
-           any(isinstance(b, ast.AugAssign) and isinstance(b.target, ast.Name) and b.target.id == "i" and ast.unparse(b.value) == "length"
-               for b in loop[0].body),
+           len(i_writes) == 1 and i_writes[0] in loop[0].body and isinstance(i_writes[0], ast.AugAssign)
+           and isinstance(i_writes[0].op, ast.Add) and same_expr(i_writes[0].value, "length"),
            "the row index must advance by the operation length for every operation (clips included, they are masked)", rd.lineno)
     rt = ast.unparse(rd)
-    ctx.ob("R2.start-position", CIG, "read_alignment_from_cigar", "ref_pos = position; seg_pos = 0",
-           "ref_pos = position" in rt and "seg_pos = 0" in rt and "trace = trace[clip_mask]" in rt,
+    pre = {st.targets[0].id: st.value for st in rd.body if isinstance(st, ast.Assign) and isinstance(st.targets[0], ast.Name)}
+    ctx.ob("R2.start-position", CIG, "read_alignment_from_cigar", "ref_pos = position; seg_pos = 0; i = 0",
+           same_expr(pre.get("ref_pos"), "position") and same_expr(pre.get("seg_pos"), "0") and same_expr(pre.get("i"), "0")
+           and "trace = trace[clip_mask]" in rt,
            "the reference pointer starts at the given position, the segment pointer at 0", rd.lineno)
     # ---------------- R3 writer ------------------------------------------------------
     wr = s.func("write_alignment_to_cigar")
@@ -170,7 +185,8 @@ def run(ctx):
            gchar_w == gchar_r == ["-"] and "seq_str.replace('-', '')" in gat and "seq_strings[i] = seq_str.replace(char, '-')" in gat,
            "the gap character written into gapped strings must be the one the parsers treat as gap", gs.lineno)
     ctx.ob("R4.gap-is-minus-one", ALN, "Alignment.trace_from_strings", "gap -> -1, symbol -> running index",
-           "trace[pos_i, str_j] = -1" in ast.unparse(ts) and "trace[pos_i, str_j] = seq_i[str_j]" in ast.unparse(ts)
+           ("trace[pos_i, str_j] = -1" in ast.unparse(ts) or contains_expr(ts, "np.full((len(seq_str_list[0]), len(seq_str_list)), -1, dtype=int)"))
+           and "trace[pos_i, str_j] = seq_i[str_j]" in ast.unparse(ts)
            and "seq_i[str_j] += 1" in ast.unparse(ts) and "if j != -1:" in ast.unparse(gs),
            "gaps are -1 in the trace, symbols count up per sequence", ts.lineno)
     sa = fcv.func("set_alignment")
@@ -253,6 +269,10 @@ MUTANTS = [
     Mutant("inverse-table-not-inverted", CIG, "_op_to_str = {v: k for k, v in _str_to_op.items()}", "_op_to_str = {k: v for k, v in _str_to_op.items()}", "R1.inverse-table"),
     Mutant("symbol-b-dropped", CIG, '    "X": CigarOp.DIFFERENT,\n    "B": CigarOp.BACK,\n}', '    "X": CigarOp.DIFFERENT,\n}', "R1.symbol-table-total"),
     Mutant("op-without-symbol", CIG, "    BACK = 9\n", "    BACK = 9\n    SKIP = 10\n", "R1.symbol-table-total"),
+    Mutant("ref-start-off-by-one", CIG, "    ref_pos = position\n", "    ref_pos = position + 1\n", "R2.start-position"),
+    Mutant("segment-positions-shifted", CIG, "            trace[i : i + length, 0] = -1\n            trace[i : i + length, 1] = np.arange(seg_pos, seg_pos + length)\n", "            trace[i : i + length, 0] = -1\n            trace[i : i + length, 1] = np.arange(seg_pos + 1, seg_pos + length + 1)\n", "R2.trace-columns"),
+    Mutant("row-index-advanced-twice", CIG, "            clip_mask[i : i + length] = False\n            seg_pos += length\n", "            clip_mask[i : i + length] = False\n            seg_pos += length\n            i += length\n", "R2.output-index-advances"),
+    Mutant("refactor-gap-store-implicit", ALN, "                    trace[pos_i, str_j] = -1\n", "                    pass\n", "R4.gap-is-minus-one", kind="silent"),
     Mutant("row-index-by-one", CIG, "        i += length\n", "        i += 1\n", "R2.output-index-advances"),
     Mutant("ref-start-zero", CIG, "    ref_pos = position\n", "    ref_pos = 0\n", "R2.start-position"),
     Mutant("clip-mask-not-applied", CIG, "    # Remove clipped positions\n    trace = trace[clip_mask]\n", "", "R2.start-position"),
